@@ -141,6 +141,19 @@ def abortWriteOps (dir : Str) (written : List Str) : List FsOp :=
   [.creat (tmpName dir (tag "Manifest"))] ++ written.map (.write (tmpName dir (tag "Manifest")))
     ++ [.close (tmpName dir (tag "Manifest")), .unlink (tmpName dir (tag "Manifest"))]
 
+/-- one regeneration in the life of a package directory: `update()` run on the package as it is now, over
+whatever the file system holds (`none` text = `ValueError`: nothing is written).  Nothing but the current
+listing, the current fetchables and the bytes of the existing Manifest enters: no time stamps, no memory of
+what was hashed before. -/
+def regenStep (thin : Bool) (dir : Str) (fs : Fs) (st : List ScanObj × List Fetchable) : Fs :=
+  match manifestText thin st.1 st.2 with
+  | none => fs
+  | some text => run (updateOps thin st.2.isEmpty (fs.read (targetName dir (tag "Manifest"))) text dir [text]) fs
+
+/-- a history of package states, the Manifest regenerated in place after each of them -/
+def regen (thin : Bool) (dir : Str) (fs : Fs) (hist : List (List ScanObj × List Fetchable)) : Fs :=
+  hist.foldl (regenStep thin dir) fs
+
 /-- the write as it was before the fix: `open(path, "w")` then `write` -/
 def inplaceOps (dir : Str) (chunks : List Str) : List FsOp :=
   [.creat (targetName dir (tag "Manifest"))] ++ chunks.map (.write (targetName dir (tag "Manifest")))
